@@ -1227,6 +1227,17 @@ impl ArchiveBuilder {
                 file_data.to_vec()
             };
 
+            // Readers verify the checksum of a single-unit file over the DECODED bytes. Once a lossy
+            // (ADPCM) stage was applied those can never equal the input, so such a unit carries no
+            // checksum (the flag is part of the block entry only, not of the encryption key).
+            let lossy_applied = flags & BlockEntry::FLAG_COMPRESS != 0
+                && *compression
+                    & (compression_flags::ADPCM_MONO | compression_flags::ADPCM_STEREO)
+                    != 0;
+            if lossy_applied {
+                flags &= !BlockEntry::FLAG_SECTOR_CRC;
+            }
+
             // Encrypt if needed
             let final_data = if *encrypt {
                 flags |= BlockEntry::FLAG_ENCRYPTED;
@@ -1246,7 +1257,7 @@ impl ArchiveBuilder {
             writer.write_all(&final_data)?;
 
             // Write CRC if enabled
-            if self.generate_crcs {
+            if self.generate_crcs && !lossy_applied {
                 // MPQ uses ADLER32 for sector checksums
                 let crc = adler2::adler32_slice(file_data);
                 writer.write_u32_le(crc)?;
